@@ -35,28 +35,34 @@ Thm_PassThrough            == PassThrough(doc)
 
 (* ---- layer B vs layer A on unit texts ----------------------------------- *)
 \* unit <<i, k>> = k-th unit of segment i; end tags are two units long so that an
-\* insertion *inside* a tag is visible; blocks: component A has css, both have js.
+\* insertion *inside* a tag is visible.  Blocks (worst-case content): component A has
+\* css whose text contains a `</body>` (unit 2 of 3) and js; component B has js whose
+\* text contains a `</head>` (unit 2 of 3).
 UTxt == [i \in DOMAIN doc |-> IF doc[i].t \in {"head", "body"} THEN <<<<i, 1>>, <<i, 2>>>> ELSE <<<<i, 1>>>>]
 HasMarker(c) == \E i \in DOMAIN doc : doc[i] = Marker(c)
-UCss  == IF HasMarker("A") THEN <<<<100, 1>>, <<100, 2>>, <<100, 3>>>> ELSE <<>>
-UJs   == IF HasMarker("A") \/ HasMarker("B") THEN <<<<200, 1>>, <<200, 2>>>> ELSE <<<<200, 1>>>>
-UFrag == IF HasMarker("A") \/ HasMarker("B") THEN <<<<300, 1>>>> ELSE <<>>
+UBlk == [css  |-> IF HasMarker("A") THEN <<<<100, 1>>, <<100, 2>>, <<100, 3>>>> ELSE <<>>,
+         cssb |-> IF HasMarker("A") THEN {1} ELSE {},
+         js   |-> IF HasMarker("B") THEN <<<<200, 1>>, <<200, 2>>, <<200, 3>>>>
+                  ELSE IF HasMarker("A") THEN <<<<200, 1>>, <<200, 2>>>> ELSE <<<<200, 1>>>>,
+         jsh  |-> IF HasMarker("B") THEN {1} ELSE {},
+         frag |-> IF HasMarker("A") \/ HasMarker("B") THEN <<<<300, 1>>>> ELSE <<>>]
 
-UImpl(mode, fixes) == ImplOut(doc, UTxt, UCss, UJs, UFrag, <<>>, mode, fixes)
-UFlat(mode)        == Flat(doc, Expected(doc, mode, FALSE), UTxt, UCss, UJs, UFrag, <<>>)
+UImpl(mode, fixes) == ImplOut(doc, UTxt, UBlk, <<>>, mode, fixes)
+UFlat(mode)        == Flat(doc, Expected(doc, mode, FALSE), UTxt, UBlk, <<>>)
+Repairable == {"offset", "multiattr", "blocktag"}      \* "nonutf8" has no unit-text counterpart
 
-\* with both repairs the code's arithmetic refines the specification on every document
-FixedRefines == \A mode \in Modes : UImpl(mode, {"offset", "multiattr"}) = UFlat(mode)
-\* each repair alone leaves exactly the other deviation
-OffsetFixRefinesOutsideMulti ==
-  \A mode \in Modes : (UImpl(mode, {"offset"}) = UFlat(mode)) <=> ~DevMultiShape(doc)
-MultiFixRefinesOutsideOffset ==
-  \A mode \in Modes : (UImpl(mode, {"multiattr"}) = UFlat(mode))
-                          <=> ~DevOffsetShape(doc, mode, UCss, <<>>, {"multiattr"})
-\* the current tree refines the specification exactly outside the two named shapes
-CurrentRefinesExactlyOutsideDeviations ==
-  \A mode \in Modes : (UImpl(mode, {}) = UFlat(mode))
-                          <=> (~DevMultiShape(doc) /\ ~DevOffsetShape(doc, mode, UCss, <<>>, {}))
+Shape(d, mode, fixes) ==
+  CASE d = "offset"    -> DevOffsetShape(doc, mode, UBlk, <<>>, fixes)
+    [] d = "multiattr" -> DevMultiShape(doc)
+    [] d = "blocktag"  -> DevBlockTagShape(doc, mode, UBlk, <<>>, fixes)
+
+\* with all repairs the code's arithmetic refines the specification on every document
+FixedRefines == \A mode \in Modes : UImpl(mode, Repairable) = UFlat(mode)
+\* for every subset of repairs, the code refines the specification exactly outside the
+\* shapes of the deviations that are left (current tree: fixes = {})
+RefinesExactlyOutsideDeviations ==
+  \A fixes \in SUBSET Repairable, mode \in Modes :
+     (UImpl(mode, fixes) = UFlat(mode)) <=> (\A d \in Repairable \ fixes : ~Shape(d, mode, fixes))
 \* not an invariant: lets TLC print the smallest counterexample of the current arithmetic
 CurrentRefines == \A mode \in Modes : UImpl(mode, {}) = UFlat(mode)
 
